@@ -1004,14 +1004,12 @@ pub struct World {
 }
 
 impl World {
-    pub fn new() -> World {
+    pub fn new() -> Result<World, String> {
         let src = format!("{}void t() {{}}\n", PRELUDE);
-        match front_end_src(&src) {
-            Ok(m) => World { prelude: m },
-            Err(e) => {
-                eprintln!("C13: prelude rejected: {}", e.text());
-                std::process::exit(3);
-            }
+        match guard(|| front_end_src(&src)) {
+            Ok(Ok(m)) => Ok(World { prelude: m }),
+            Ok(Err(e)) => Err(format!("reject:{}", one_line(e.text()))),
+            Err(p) => Err(format!("panic:{}", norm_panic(&p))),
         }
     }
 
@@ -1638,7 +1636,20 @@ fn src_tree(ty: &str, d: u32, rng: &mut Rng) -> String {
 
 pub fn run(args: &Args, out: &mut Out) {
     let mut hist = Hist::default();
-    let w = World::new();
+    let w = match World::new() {
+        Ok(w) => w,
+        Err(e) => {
+            // the fixed declarations are themselves a boundary-value input: two enums whose enumerators span exactly the
+            // int and the uint range, constants in a namespace. They are valid; a rejection is a failure of the property.
+            out.case(
+                &format!("C13.prelude\t{}", one_line(PRELUDE)),
+                &e,
+                &format!("FAIL:the boundary-value declarations every request is interpreted against are not accepted: {}", e),
+            );
+            out.stat("{\"mode\":\"prelude rejected\"}");
+            return;
+        }
+    };
     if let Some(lines) = args.request_lines() {
         for line in lines {
             let f: Vec<&str> = line.split('\t').collect();
